@@ -5,6 +5,7 @@ CONSTANTS
   MaxRogue = 1
   FixUnknown = FALSE
   CtxWriteCloses = FALSE
+  OfferWatchesClosed = TRUE
 SPECIFICATION Spec
 INVARIANTS NeverCrashes
 
